@@ -313,6 +313,7 @@ def run(tier, seed):
         failing += lib_stream(ck, tmp, keys, envs)
         failing += cli_stream(ck, tmp, keys, envs)
         failing += methods_stream(ck, tmp, keys, envs)
+        failing += history_stream(ck, tmp, keys, envs)
         failing += es_stream(ck, keys)
         failing += leading_zero_stream(ck, keys)
         failing += reject_stream(ck, tmp, keys, envs)
@@ -322,7 +323,8 @@ def run(tier, seed):
             "ids {0,23,24,255,256,65535,65536,2^31,2^32-1}: all 45 combinations), cli (the real CLI in fresh subprocesses, decimal and hex key ids), methods "
             "(direct calls of create_authentication_block / create_cose_structure), es-width (_create_cose_es_signature on stub keys with chosen r, s at the "
             "byte-width boundaries), leading-zero (real ECDSA signatures re-drawn until r or s has a leading zero byte), reject (unknown / mismatching / "
-            "unsupported key, already signed).  Every case runs on the implementation and on the extracted regenerated model (output file / exception compared, "
+            "unsupported key, already signed), history (one process signs for two key directories in turn, the same key names being different keys in each, "
+            "nothing cleaned between the calls).  Every case runs on the implementation and on the extracted regenerated model (output file / exception compared, "
             "the model's signature oracle filled from the implementation's output) and through the independent oracle (own CBOR reader, byte frame, COSE_Sign1 "
             "shape, registry ids, signature verification over a rebuilt Sig_structure).  non-trivial = accepted by the tool (or a rejected-stream case); "
             "distinct by (stream, input)")
@@ -353,6 +355,43 @@ def search(ck, tmp, keys, envs):
     return fails[:3]
 
 
+def run_history(tmp, stores, steps, envs_data):
+    """steps: [(store index, key name, alg, key id, envelope index)] signed one after another in this process, nothing cleaned or
+    reloaded between the calls -> first failing step as (index, why) or None"""
+    for n, (si, kn, alg, kid, e) in enumerate(steps):
+        data = envs_data[e]
+        r = sl.lib_single(tmp, data, kn, kid, alg, stores[si].dir, "error", name=f"hist{n}", clean=False)
+        why = f"rejected with {r[1]}" if r[0] != "ok" else oracle_signed(data, r[1], stores[si], kn, alg, kid)
+        if why:
+            return n, why
+    return None
+
+
+def history_stream(ck, tmp, keys, envs):
+    """One process signs for several parties in turn: the same key NAMES under different key directories (contexts) are different keys."""
+    fails = []
+    keys2 = sl.Keys(os.path.join(tmp, "party2", "keys"))
+    stores = [keys, keys2]
+    for h in range(2 if not ck.deep else 8):
+        order = [0, 1, 1, 0, 1, 0] if h % 2 == 0 else [0, 0, 1, 0, 1, 1]      # every history starts where the other streams left the process
+        steps = []
+        for n, si in enumerate(order):
+            alg = ALGS[(h + n) % len(ALGS)] if n % 3 else "eddsa"
+            steps.append((si, keys.for_alg(alg, 0), alg, KIDS[(h * 7 + n) % len(KIDS)], (h + n) % len(envs)))
+        sl._clean_modules()
+        bad = run_history(tmp, stores, steps, [d for d, _ in envs])
+        sl._clean_modules()
+        ck.count("history", (h, tuple(steps)), nontrivial=True, sample={"contexts in turn": order, "steps": [list(s_[1:4]) for s_ in steps]})
+        if bad:
+            n, why = bad
+            fails.append({"input": {"op": "history", "steps": [list(s_) for s_ in steps[:n + 1]],
+                                    "envelopes_hex": {str(s_[4]): envs[s_[4]][0].hex() for s_ in steps[:n + 1]},
+                                    "private_keys_pem": [{s_[1]: pem_of(stores[i], s_[1]) for s_ in steps[:n + 1] if s_[0] == i} for i in (0, 1)]},
+                          "observed": f"call {n + 1} of one process (key directory {steps[n][0] + 1} of 2, the same key names in both): {why}",
+                          "expected": EXPECTED})
+    return fails
+
+
 def replay(path):
     recd = json.load(open(path))
     inp = recd["input"]
@@ -368,7 +407,19 @@ def replay(path):
             from cryptography.hazmat.primitives.serialization import load_pem_private_key
             key = load_pem_private_key(inp["private_key_pem"].encode(), None)
             keys.add(inp["key_name"], key, *sl.kind_of_key(key))
-        if op in ("single-level", "cli single-level"):
+        if op == "history":
+            from cryptography.hazmat.primitives.serialization import load_pem_private_key
+            stores = []
+            for i, pems in enumerate(inp["private_keys_pem"]):
+                st = sl.Keys(os.path.join(tmp, f"party{i}", "keys"), n=0)
+                for name, pem in pems.items():
+                    key = load_pem_private_key(pem.encode(), None)
+                    st.add(name, key, *sl.kind_of_key(key))
+                stores.append(st)
+            datas = {int(k): bytes.fromhex(v) for k, v in inp["envelopes_hex"].items()}
+            bad = run_history(tmp, stores, [tuple(s_) for s_ in inp["steps"]], datas)
+            why = None if bad is None else f"call {bad[0] + 1}: {bad[1]}"
+        elif op in ("single-level", "cli single-level"):
             data = bytes.fromhex(inp["envelope_hex"])
             # ECDSA is randomised: a failure that depends on the signature value (leading zero bytes) is looked for over several signatures
             tries = 1 if inp["alg"] not in KEY_SIZE or inp.get("case") else (8 if op.startswith("cli") else 64)
